@@ -170,7 +170,7 @@ func c07Check(c *Ctx, m map[string]interface{}, path string, pol int, choices []
 
 func c07Run(c *Ctx) {
 	mustBeDefault(c)
-	c.S.Rule = "cases = (Map, path): Maps are all map templates with <= N nodes over keys {a,ab,k} (one key is a prefix of another) (lists <= 3 members, maps <= 3 keys, empty containers, list-in-list for non-indexed paths) with unique leaves, plus a wide family (maps and lists of 16, 31, 32, 33, 40, 63, 64 and 65 members) a family of Maps that hold a key literally named '*' (a '*' step still selects every entry) and a deep family (four levels a.k.a.k, each a map / one-member list / two-member list of maps, 81 shapes plus heterogeneous variants, every four-step path over {key,key[0],key[1],*}); paths are step sequences of length <= L over {a,ab,k,z,*,a[0..2],ab[0..2],k[0..2]} enumerated per Map by depth-first extension (a prefix denoting nothing is extended by one more step, then abandoned); each case is run under ascending and descending map-iteration order and, for wildcard paths, under every single deviation from the sorted order (E-choice bound 1; bound 2 in thorough on the smaller Maps). Results are retained (last 16) and re-checked slot by slot after every later call. non-trivial = the reference says the path denotes at least one value."
+	c.S.Rule = "cases = (Map, path): Maps are all map templates with <= N nodes over keys {a,ab,k} (one key is a prefix of another) (lists <= 3 members, maps <= 3 keys, empty containers, list-in-list for non-indexed paths) with unique leaves, plus a wide family (maps and lists of 16, 31, 32, 33, 40, 63, 64 and 65 members) a family over multi-byte keys (one a byte-prefix of another), a family of Maps that hold a key literally named '*' (a '*' step still selects every entry) and a deep family (four levels a.k.a.k, each a map / one-member list / two-member list of maps, 81 shapes plus heterogeneous variants, every four-step path over {key,key[0],key[1],*}); paths are step sequences of length <= L over {a,ab,k,z,*,a[0..2],ab[0..2],k[0..2]} enumerated per Map by depth-first extension (a prefix denoting nothing is extended by one more step, then abandoned); each case is run under ascending and descending map-iteration order and, for wildcard paths, under every single deviation from the sorted order (E-choice bound 1; bound 2 in thorough on the smaller Maps). Results are retained (last 16) and re-checked slot by slot after every later call. non-trivial = the reference says the path denotes at least one value."
 	c.S.Assumptions = []string{"reference path semantics written from the documentation (harness/ref_path.go)", "list directly inside a list under a plain key: one-level and recursive readings both accepted"}
 	maxNodes, maxLen, echoiceNodes := 5, 3, 5
 	if c.Thorough {
@@ -309,6 +309,18 @@ func c07Run(c *Ctx) {
 			return
 		}
 		for _, p := range starPaths {
+			if !c.Mine() {
+				continue
+			}
+			runCase(inst(t, mixLeaves()).(map[string]interface{}), 999, p)
+		}
+	})
+	// multi-byte keys, one a byte-prefix of another (path strings are cut at byte offsets)
+	gmb := newGen(GenP{Keys: []string{"\u00e9", "\u00e9a", "\u4e2d"}, MaxList: 2, MaxKeys: 3, EmptyList: false, EmptyMap: true, ListInList: false})
+	var mbPaths []string
+	seqs([]string{"\u00e9", "\u00e9a", "\u4e2d", "*", "\u00e9[0]", "\u00e9a[1]", "\u4e2d[0]"}, 3, func(s []string) { mbPaths = append(mbPaths, strings.Join(s, ".")) })
+	gmb.rootMaps(4, func(t *T) {
+		for _, p := range mbPaths {
 			if !c.Mine() {
 				continue
 			}
